@@ -98,6 +98,7 @@ fn plan_for(c: Case) -> impl FnOnce(&mut Rng) -> Plan {
             raw_payload_hex: None,
             label,
             gate: Gate::None,
+            hash_hex_override: None,
         }];
         Plan { cfg, local_sk, local_pk, hashes, htlcs }
     }
